@@ -322,7 +322,10 @@ def judge(ctx, case, impl, sset, model):
         ndiff = sum(1 for a_, b_ in zip(M['outmask'], I['outmask']) if a_ != b_)
         if verdict == 'judged':
             ctx.disagree('iterfit:outmask', case, {'outmask': I['outmask']}, {'outmask': M['outmask']})
-        elif ndiff > max(2, n // 20) and case.get('gap') and not all(M['outmask']) and not all(I['outmask']):
+        elif (ndiff > max(2, n // 20) and case.get('gap') and not all(M['outmask']) and not all(I['outmask']) and not case.get('ties')
+              and all(l_ is None or core.b2f(l_) >= 2.5 for l_ in (case['lower'], case['upper']))):
+            # (second false alarm of this comparison, quick seed 74: tied abscissae and an envelope limit of 0 on a gap case -
+            #  it now needs distinct abscissae and ordinary limits)
             # (an all-True answer of either side is iterfit's / the model's "gave up on a singular reduced knot set" exit,
             #  reached or not by rounding: outside the statement, see LEVEL_NOTE)
             # without a known margin one or two points may sit on a limit; many differing points are not a rounding matter
